@@ -1186,7 +1186,7 @@ pub fn scale_image(seed: u64) -> (Vec<u8>, Option<usize>) {
             ids.push(id);
         }
         moov_kids.push(t);
-        if r.chance(1, 40) {
+        if i == ntrak / 2 && r.chance(1, 4) {
             moov_kids.push(g_trak(&mut r, i + 1000)); // an odd one among the regular ones
         }
     }
@@ -1211,8 +1211,21 @@ pub fn scale_image(seed: u64) -> (Vec<u8>, Option<usize>) {
         1 => 200 + r.below(800),
         _ => 2000 + r.below(6000),
     };
+    // fragments: mostly empty ones (mfhd only), some with a small valid traf for a known track;
+    // an occasional arbitrary one only when there are few (one bad fragment fails the open)
     for seq in 0..nmoof {
-        if r.chance(1, 8) {
+        if r.chance(1, 6) && !ids.is_empty() {
+            let tid = *r.pick(&ids);
+            let n = r.below(3) as u32;
+            let mut tr = Vec::new();
+            tr.extend_from_slice(&n.to_be_bytes());
+            tr.extend_from_slice(&0i32.to_be_bytes());
+            for _ in 0..n {
+                tr.extend_from_slice(&0u32.to_be_bytes()); // sample size 0: no payload needed
+            }
+            let traf = bx(b"traf", &cat(&[&full(b"tfhd", 0, 0x020000, &tid.to_be_bytes()), &full(b"tfdt", 0, 0, &(seq as u32 * 100).to_be_bytes()), &full(b"trun", 0, 0x201, &tr)]));
+            out.extend(bx(b"moof", &cat(&[&full(b"mfhd", 0, 0, &(seq as u32 + 1).to_be_bytes()), &traf])));
+        } else if nmoof < 400 && r.chance(1, 100) {
             out.extend(g_moof(&mut r, seq as u32 + 1, &ids));
         } else {
             out.extend(bx(b"moof", &full(b"mfhd", 0, 0, &(seq as u32 + 1).to_be_bytes())));
